@@ -1272,6 +1272,78 @@ def run_arg_tolerance(block, ctx):
     ctx.sample({"callable": block[0]})
 
 
+# ---------------------------------------------------------------------------
+# clause: a result belongs to the caller - changing it must not change what the next call returns
+
+def _scribble(r, depth=0):
+    """Change every mutable object reachable in a result, in place."""
+    n = 0
+    if isinstance(r, Angle):
+        r.set(123.456)
+        r.set_tolerance(0.25)
+        return 1
+    if isinstance(r, Epoch):
+        r.set(1987, 6, 19.5)
+        return 1
+    if isinstance(r, list):
+        for v in r:
+            n += _scribble(v, depth + 1)
+        r.append("scribbled")
+        return n + 1
+    if isinstance(r, dict):
+        for v in r.values():
+            n += _scribble(v, depth + 1)
+        r["scribbled"] = True
+        return n + 1
+    if isinstance(r, tuple):
+        for v in r:
+            n += _scribble(v, depth + 1)
+        return n
+    if isinstance(r, (Interpolation, CurveFitting)) and depth < 2:
+        try:
+            r.set([0.0, 1.0, 2.0], [5.0, 4.0, 9.0])
+            return 1
+        except Exception:
+            return 0
+    return 0
+
+
+def check_result_aliasing(case):
+    """call; overwrite every Angle / Epoch / list in the returned value in place (the caller owns it);
+    call again with equal arguments: the second result must be the first result as it was."""
+    name = case["callable"]
+    S = SP.specs()
+    spec = S[name]
+    if spec["mutator"]:
+        return []
+    base = base_tags(spec)
+    k1, r1, _, _ = do_call(name, spec, base, {})
+    if k1 != "ok":
+        return []
+    before = canon(r1)
+    if not _scribble(r1):
+        return []
+    k2, r2, _, _ = do_call(name, spec, base, {})
+    after = canon(r2) if k2 == "ok" else ("raised", type(r2).__name__)
+    if after != before:
+        return ["%s returned %r; after the caller changed that result in place the same call returns %r"
+                % (name, before, after)]
+    return []
+
+
+def run_result_aliasing(block, ctx):
+    for name in block:
+        ctx.evals += 2
+        ctx.transitions += 2
+        ctx.states += 1
+        ctx.traces += 1
+        ctx.nt_count += 1
+        for msg in check_result_aliasing({"callable": name}):
+            ctx.viol({"callable": name}, msg, site="result_aliasing")
+        ctx.outcome(name)
+    ctx.sample({"callable": block[0]})
+
+
 def clauses(tier):
     S = SP.specs()
     names = sorted(S)
@@ -1290,6 +1362,7 @@ def clauses(tier):
         Clause("totality", tot_blocks, run_totality, replay_totality, floor=500, shape="H"),
         Clause("representation_forms", chunks([n for n in order if any(p[0] == "numangle" for p in SP.specs()[n]["params"])], 4),
                run_representation, check_representation, floor=10, shape="H"),
+        Clause("result_aliasing", chunks(order, 32), run_result_aliasing, check_result_aliasing, floor=100, shape="H"),
         Clause("argument_tolerance", chunks(order, 32), run_arg_tolerance, check_arg_tolerance, floor=100, shape="H"),
         Clause("dense_domains", chunks(dense_cases(), 64), run_dense, lambda c: [m for _, m in check_dense(c)],
                floor=5000, shape="H"),
